@@ -110,7 +110,13 @@ def faHandle (op : String) (j : Json) : R Json := do
   | "fa.objRun" =>   -- model of an automaton object edited through its API (C19)
     let det ← asBool (← field j "det")
     let ops ← (← asArr (← field j "ops")).mapM asFAObjOp
-    pure (Json.arr (faObjRun (FAObj.new det) ops).toArray)
+    -- "init": the sets given to the constructor (absent: the constructor called without arguments)
+    let o₀ ← match (j.getObjVal? "init").toOption with
+      | none => pure (FAObj.new det)
+      | some i => do
+        pure (FAObj.mk det (← asNatList (← field i "states")) (← asNatList (← field i "syms"))
+          (← asNatList (← field i "starts")) (← asNatList (← field i "finals")))
+    pure (Json.mkObj [("init", jFAObj o₀), ("steps", Json.arr (faObjRun o₀ ops).toArray)])
   | "fa.member" =>   -- oracle: spec-level membership (acceptsE is proved equal to Lang)
     let A ← asENFA (← field j "A")
     checkWF A
